@@ -103,3 +103,55 @@ PROPS["C07"] = dict(
     level_note="Trusted: as C05.",
     trusted_extra=_XF_TRUST,
 )
+
+_RD_EXPL = ("Decoders: flate, brotli, bzip2, meta (and xflate.Reader where stated). Valid streams from compress/flate, zlib, "
+            "bit-level synthesis, libbrotlienc (quality/lgwin/mode/lgblock/NPOSTFIX/NDIRECT/flush/metadata), libbz2 incl. "
+            "concatenated streams, meta.Writer. ")
+PROPS["C09"] = dict(
+    rule=("per codec: valid streams; every proper prefix of short streams (64 sampled cuts + ends for long ones) under a random "
+          "source kind and schedule; 12 mutations per stream; a source that fails with a sentinel error at every position "
+          "(sampled for long streams) for Read-only, ReadByte and Peek/Discard sources; xflate containers truncated/mutated. "
+          "After the first error: two more Reads and Close. Distinct by hash of (input, cut/fault position)."),
+    explanation=(_RD_EXPL + "Implementation oracles: cut => exactly io.ErrUnexpectedEOF (bzip2: a cut exactly between streams "
+                 "is acceptance; meta: a cut between blocks is a clean EOF) and delivered bytes a prefix of the plaintext; "
+                 "malformed => class in {EOF, UnexpectedEOF, Corrupted, Deprecated}; failing source => the sentinel itself; "
+                 "sticky error; Close nil iff EOF. flate cases are also compared with the extracted RFC 1951 model."),
+    assumptions=["libbrotli, libbz2, zlib, compress/flate produce valid streams (generators)"],
+    level_text=("Proved for the Read wrapper over every decoder program: the reported error is the decoder's outcome, is "
+                "reported only after everything decoded was delivered, is sticky, and Close returns nil exactly after EOF; "
+                "for the RFC 1951 model every cut of an accepted stream gives exactly UnexpectedEOF with a prefix of the "
+                "output. For brotli/bzip2 the same locality theorem applies once their models are instantiated (eof-free "
+                "programs); error-class containment and verbatim source errors are decided by the implementation oracles."),
+    level_note="Trusted: Coq kernel, extraction, driver, Go harness, reference encoders. Model = code sampled.",
+)
+PROPS["C10"] = dict(
+    rule=("per codec: valid and mutated streams x 11 source kinds (bytes.Reader, bytes.Buffer, strings.Reader, bufio 16/4096, "
+          "bufio over a 1-byte-per-Read source, ReadByte-only, a randomly fragmenting BufferedReader, Read-only, one byte per "
+          "Read, data-with-EOF) x 5 schedules (1, 7, 4096, 1 MiB, random with 30% zero-length); quick runs a third of the "
+          "combinations. Baseline: bytes.Reader with 4096-byte reads."),
+    explanation=(_RD_EXPL + "Implementation oracles: for accepted streams identical bytes and EOF under every driver; for "
+                 "rejected streams prefix-comparable bytes and the same error class; per-call contract (n <= len, "
+                 "OutputOffset, progress, sticky error, Close). flate baseline compared with the extracted model."),
+    assumptions=[],
+    level_text=("Proved for the Read wrapper over every decoder program and every schedule of buffer lengths (zero allowed): "
+                "delivered bytes are always a prefix of the one-shot output, a schedule that ends in an error has delivered "
+                "exactly the one-shot output and reports the one-shot outcome, zero-length reads lose nothing. Independence "
+                "from the source's shape rests on the bit-reader layer (Prefix/BitReader, in progress) and on the oracle runs "
+                "over 11 source kinds."),
+    level_note="Trusted: as C09.",
+)
+PROPS["C11"] = dict(
+    rule=("per codec: valid streams followed by 0..64 random trailing bytes x exact source kinds (bytes.Reader, bytes.Buffer, "
+          "strings.Reader, bufio, ReadByte-only, custom BufferedReader except for brotli) x schedules; gated sources: "
+          "compress/flate and zlib streams with sync/full flushes read through a ByteReader and a BufferedReader that expose "
+          "only the flushed prefix and record the first request beyond it."),
+    explanation=(_RD_EXPL + "Implementation oracles: result unchanged by the trailer, InputOffset = stream length, trailer "
+                 "left unread (bzip2: InputOffset = total input, trailing garbage not accepted silently), OutputOffset after "
+                 "every Read, all flushed data delivered before any request beyond the flush point."),
+    assumptions=[],
+    level_text=("Proved: for every eof-free decoder program (the RFC 1951 model is one) verdict, output and consumed length are "
+                "independent of trailing bytes; consumption is a prefix of the source; OutputOffset equals bytes delivered "
+                "after every Read for every schedule. That the Go bit readers pull no more bytes than the model's bit "
+                "position is checked by the oracle runs (InputOffset and leftover), not yet by a theorem."),
+    level_note="Trusted: as C09.",
+)
